@@ -631,6 +631,29 @@ def boundary_histories(quick):
     return hs, cov
 
 
+def token_iteration_histories(maxlen):
+    """`start = 0; while(start < length()) t = s.token(seps, start);` driven by the `start` values the reference
+    returns (the implementation's new `start` is the printed result of every token line and is compared)."""
+    hs = []
+    for subj in small_strings(maxlen):
+        n = len(unhex(subj))
+        for seps, form in (("2f", "S"), ("2f20", "S"), ("47", "C"), ("32", "C")):
+            r = Ref()
+            h = [f"ptr 0 {subj}", "assign 3 0"]
+            for l in h:
+                r.apply(l)
+            start, guard = 0, 0
+            while start < n and guard < 10:
+                guard += 1
+                line = f"tokenS 1 0 {seps} {start}" if form == "S" else f"tokenC 1 0 {seps} {start}"
+                res = r.apply(line).split(" ; ")[0]
+                h.append(line)
+                start = int(res)
+            h.append(f"split 3 {seps if form == 'S' else format(int(seps), '02x')} 0")
+            hs.append(h)
+    return hs
+
+
 def nontrivial(h, out):
     if len(h) < 3 or not out:
         return None
@@ -655,6 +678,7 @@ def histories_for(ctx):
     fq = foreign_query_histories(1 if quick else 2)
     sp = special_histories()
     bd, bcov = boundary_histories(quick)
+    ti = token_iteration_histories(3 if quick else 4)
     ctx.cov.setdefault("branch_hits", {})["detach_capacity_boundary"] = dict(sorted(bcov.items()))
     rnd = [gen_history(rng, rng.choice([8, 20, 40, 60])) for _ in range(8000 if quick else 90000)]
     ctx.cov["rule"] = (
@@ -667,12 +691,13 @@ def histories_for(ctx):
         f"{len(sp)} special (toBool table, all 255 bytes through the case maps, printf around the 200-char buffer) + "
         f"{len(bd)} capacity-boundary histories (every growing call x needed capacity = cap-1..cap+2 x exclusive/shared block, printf around its buffer, "
         f"replace around its result slack; histogram in branch_hits.detach_capacity_boundary) + "
+        f"{len(ti)} token iterations (`while(start < length()) token(seps, start)` on every small subject, the returned start fed back, followed by split) + "
         f"{len(rnd)} random histories of 8..60 ops over 4 variables, 2 literals, 2 attached ranges; "
         "distinct_nontrivial = distinct (op-kind set, final observation of all variables) among histories with >= 3 ops and a non-empty final state")
     ctx.cov["exhaustive"] = False
     ctx.cov["exhaustive_scope"] = (f"A: length<={3 if quick else 4} over {len(CORE_OPS)} ops: {len(ex1)} histories; B: length<={2 if quick else 3} over "
                                    f"{len(CORE_OPS) + len(MORE_OPS)} ops: {len(ex2)}; queries: {len(qs)} subject histories; foreign: {len(fq)}")
-    return corpus + sp + bd + ex1 + ex2 + qs + fq + rnd
+    return corpus + sp + bd + ti + ex1 + ex2 + qs + fq + rnd
 
 
 ASSUMPTIONS = [
